@@ -94,13 +94,25 @@ def r1_full_scan_strict_improvement(cx):
     m_true = success_edges(lk, matches[0][0]).ok_edges if matches else set()
     # every store to the best-so-far locals inside the loop is dominated by both conditions
     upd = []
+    # candidate state = locals assigned inside the scan and read after it (live-out), plus the best-length local
+    after = lk.cfg.reachable_from([dst for (_src, dst) in scan.exhaust_exits]) - scan.blocks
+    read_after = set()
+    for bi in after:
+        for s in lk.blocks[bi]["stmts"]:
+            if s["k"] == "assign":
+                rv = s["rv"]
+                for o in ([rv.get("op")] if rv["k"] in ("use", "cast") else [rv.get("a"), rv.get("b")] if rv["k"] == "binop" else rv.get("ops", []) if rv["k"] == "aggregate" else []):
+                    if o is not None and op_place(o) is not None:
+                        read_after.add(op_place(o)["l"])
+                if rv["k"] in ("ref", "discr"):
+                    read_after.add(rv["place"]["l"])
     for bi in scan.blocks:
         for s in lk.blocks[bi]["stmts"]:
-            if s["k"] == "assign" and not s["place"].get("p") and lk.local_name(s["place"]["l"]) in ("found", "prefix_len") or (s["k"] == "assign" and not s["place"].get("p") and s["place"]["l"] == best_local):
+            if s["k"] == "assign" and not s["place"].get("p") and (s["place"]["l"] in read_after or s["place"]["l"] == best_local) and lk.local_name(s["place"]["l"]) is not None:
                 upd.append((bi, s))
     cx.floor("candidate-updates", len(upd), 2, "updates of the best candidate inside the scan")
     for bi, s in upd:
-        cx.check("update-needs-longer-and-matching:%s" % (lk.local_name(s["place"]["l"]) or s["place"]["l"]),
+        cx.check("update-needs-longer-and-matching:%s" % ("best-length" if s["place"]["l"] == best_local else "candidate"),
                  dominated_by_edges(lk, gt_edges, bi) and dominated_by_edges(lk, m_true, bi), site_of(lk, span=s["span"]),
                  "the candidate is replaced only when the claim is strictly more specific and contains the address")
     # the new best length is the claim's own prefix length
